@@ -49,11 +49,9 @@ class Rx(Reaction):
 
 
 def _net(allowed):
-    n = Network.__new__(Network)
-    n.reaction_list, n._reactants, n._products, n._skipped_reactions = [], set(), set(), []
-    n._known_elements, n._known_pseudo_elements = [], []
+    # the real constructor (whatever state it sets up), then the allowed list as stub species (no name parsing)
+    n = Network()
     n._allowed_species = [Sp(x) for x in allowed]
-    n._required_species, n._species_kwargs = [], {}
     return n
 
 
